@@ -582,6 +582,12 @@ class _Norm(ast.NodeTransformer):
                     continue
                 out.append(ast.copy_location(ast.Assign(targets=[st.target], value=st.value), st))
                 continue
+            # ... and `self.x: T = v` in a method is `self.x = v` (an annotation on an attribute declares nothing at run time)
+            if in_function and isinstance(st, ast.AnnAssign) and isinstance(st.target, ast.Attribute):
+                if st.value is None:
+                    continue
+                out.append(ast.copy_location(ast.Assign(targets=[st.target], value=st.value), st))
+                continue
             out.append(st)
         # N6: guard-clause form.  An if whose body ends (return/raise/continue/break) needs no else; an if whose else ends is the
         # same guard with the test negated; when both end the positive test comes first.
